@@ -192,7 +192,7 @@ class DLTIFilter(object):
         if self.is_moving_average:
             N = len(self.b)
             return sin(N * pi * f * dt) / sin(pi * f * dt) \
-                * exp(-j * pi * f * (N - 1) * dt) * N * self.b[0] / self.a[0]
+                * exp(-j * pi * f * (N - 1) * dt) * self.b[0] / self.a[0]
 
         return self.transfer_function().DTFT(var, images, **assumptions)
 
